@@ -11,4 +11,10 @@ func facts() {
 	skeletonFact("skel_breaker_currentState", []string{"C15"}, brk, "Breaker", "currentState")
 	skeletonFact("skel_breaker_setState", []string{"C15"}, brk, "Breaker", "setState")
 	skeletonFact("skel_breaker_setBackoff", []string{"C15"}, brk, "Breaker", "setBackoff")
+
+	sf := "internal/pkg/singleflight/singleflight.go"
+	skeletonFact("skel_singleflight_Do", []string{"C16"}, sf, "Group", "Do")
+	sfKeys("proxy", []string{"C16"}, "internal/proxy/providers/singleflight_middleware.go")
+	sfKeys("auth", []string{"C16"}, "internal/auth/providers/singleflight_middleware.go")
+	sfDoKey([]string{"C16"}, "internal/proxy/providers/singleflight_middleware.go", "internal/auth/providers/singleflight_middleware.go")
 }
